@@ -40,7 +40,7 @@ OPS = {
 
 def base_consts(**kw):
     c = dict(NR=3, Writer0=[1, 2, 1], Lid=["X", "X", "X"], Fn="LWW", MaxE=4, MaxOps=6, PCs={1},
-             Sizes=set(), Writers=set(), Denied=[set(), set(), set()], HashPerm="id", IterOn=set(), Evil=set(), Kinds=set(), MaxBad=0, PubOn=set(), WriteFaults=False, ForkOn=set(), LoadKinds=set())
+             Sizes=set(), Writers=set(), Denied=[set(), set(), set()], HashPerm="id", IterOn=set(), Evil=set(), Kinds=set(), MaxBad=0, PubOn=set(), WriteFaults=False, ForkOn=set(), LoadKinds=set(), CrossFork=False, Payloads={"p"})
     c.update(kw)
     return c
 
